@@ -1173,3 +1173,88 @@ Proof.
   { exact Hstd. }
   exists f'. split; [|exact Hrest]. exact He.
 Qed.
+
+(* ------------------------------------------------------------------ G. the message queue in closed form
+   An exact read from a message queue is served in PIECES: every round of the default loop dequeues one
+   message, takes what still fits and discards the excess.  [msgq_exact ms want acc] says what comes out
+   for a queue given as a list of messages: it succeeds when the messages in front are non-empty until the
+   request is filled, fails with UnexpectedEof at an empty message and with the descriptor's EAGAIN when
+   the queue runs dry. *)
+Fixpoint enc_msgs (ms : list (list N)) : list N :=
+  match ms with [] => [] | m :: t => m ++ MSG_END :: enc_msgs t end.
+Definition payload_ok (m : list N) : Prop := Forall (fun x => x < MSG_END) m.
+
+Fixpoint msgq_exact (ms : list (list N)) (want : N) (acc : list N) {struct ms}
+  : option (list (list N)) * list N * res unit :=
+  if want =? 0 then (Some ms, acc, Ok tt) else
+  match ms with
+  | [] => (None, [], Err (VIo EOther))
+  | m :: t => if nlen m =? 0 then (None, [], Err (VIo EUnexpectedEof))
+              else msgq_exact t (want - nlen (ntake want m)) (acc ++ ntake want m)
+  end.
+
+Lemma msg_split_enc m rest : payload_ok m -> msg_split (m ++ MSG_END :: rest) = (m, rest).
+Proof.
+  induction 1 as [|x m Hx _ IH]; cbn [app msg_split].
+  - rewrite N.eqb_refl. reflexivity.
+  - destruct (N.eqb_spec x MSG_END) as [E|_]; [lia|]. rewrite IH. reflexivity.
+Qed.
+Lemma msgq_read_enc m t p o len : payload_ok m -> len <> 0 ->
+  msgq_read {| s_data := enc_msgs (m :: t); s_pos := p; s_out := o |} len =
+  ({| s_data := enc_msgs t; s_pos := p; s_out := o |}, OsData (ntake len m)).
+Proof.
+  intros Hm Hl. unfold msgq_read. destruct (N.eqb_spec len 0); [contradiction|]. cbn [s_data s_pos s_out enc_msgs].
+  destruct (m ++ MSG_END :: enc_msgs t) as [|x r] eqn:E.
+  - exfalso. destruct m; discriminate.
+  - rewrite <- E, (msg_split_enc m _ Hm). reflexivity.
+Qed.
+
+Definition msgq_state (p : N) (o : list N) (ms : list (list N)) : sstate :=
+  {| s_data := enc_msgs ms; s_pos := p; s_out := o |}.
+
+Lemma std_msgq_read_exact p o : forall ms, Forall payload_ok ms -> forall fuel want acc,
+  (N.to_nat want < fuel)%nat ->
+  std_fd_read_exact msgq_read fuel (msgq_state p o ms) want acc =
+  Val (let '(oms, out, r) := msgq_exact ms want acc in (option_map (msgq_state p o) oms, out, r)).
+Proof.
+  induction 1 as [|m t Hm _ IH]; intros fuel want acc Hf; (destruct fuel as [|k]; [lia|]);
+    cbn [std_fd_read_exact msgq_exact]; destruct (N.eqb_spec want 0) as [Hz|Hz]; try reflexivity.
+  - unfold msgq_read. destruct (N.eqb_spec want 0); [contradiction|]. reflexivity.
+  - unfold msgq_state at 1. rewrite (msgq_read_enc m t p o want Hm Hz).
+    assert (Hn : nlen (ntake want m) = N.min want (nlen m)) by apply nlen_ntake.
+    destruct (N.eqb_spec (nlen m) 0) as [Hm0|Hm0].
+    + destruct (N.eqb_spec (nlen (ntake want m)) 0); [reflexivity|lia].
+    + destruct (N.eqb_spec (nlen (ntake want m)) 0); [lia|].
+      apply (IH k (want - nlen (ntake want m)) (acc ++ ntake want m)). lia.
+Qed.
+
+Lemma msgq_exact_some : forall ms want acc ms' out r, msgq_exact ms want acc = (Some ms', out, r) ->
+  r = Ok tt /\ nlen out = nlen acc + want.
+Proof.
+  induction ms as [|m t IH]; intros want acc ms' out r H; cbn [msgq_exact] in H;
+    destruct (N.eqb_spec want 0) as [Hz|Hz]; try (inversion H; subst; split; [reflexivity|lia]); try discriminate.
+  destruct (nlen m =? 0); [discriminate|]. apply IH in H. destruct H as [-> H]. split; [reflexivity|].
+  rewrite H, nlen_app. pose proof (nlen_ntake want m). lia.
+Qed.
+
+Lemma msgq_read_exact_pieces_lemma : forall md ms b p, Forall payload_ok ms -> buf_ok b ->
+  exists st' b',
+    vm_step md KMsgQ (msgq_state p [] ms) (OReadExact b)
+      = Val ((st', arena b'), rc_unit (snd (msgq_exact ms (nlen b) [])))
+    /\ nlen b' = nlen b
+    /\ (forall ms', fst (fst (msgq_exact ms (nlen b) [])) = Some ms' ->
+          st' = msgq_state p [] ms' /\ b' = snd (fst (msgq_exact ms (nlen b) []))).
+Proof.
+  intros md ms b p Hms Hb.
+  destruct (adapter_eq_std_lemma md KMsgQ [] (msgq_state p [] ms) (OReadExact b) 0)
+    as (st' & b' & rc & ost & bs & Hv & Hs & Hl & Hok & _ & _).
+  { split; [reflexivity|]. split; [exact Hb|exact I]. }
+  { exact I. }
+  cbn [op_buf is_read] in *.
+  unfold std_step in Hs. rewrite (std_msgq_read_exact p [] ms Hms) in Hs by lia. cbn [bind] in Hs.
+  destruct (msgq_exact ms (nlen b) []) as [[oms out] r] eqn:E. inversion Hs; subst; clear Hs.
+  exists st', b'. cbn [fst snd]. split; [exact Hv|]. split; [exact Hl|].
+  intros ms' ->. destruct (msgq_exact_some _ _ _ _ _ _ E) as [-> Ho]. cbn [nlen length N.of_nat] in Ho.
+  destruct (Hok eq_refl) as (Hst & _ & Hb'). cbn [option_map] in Hst. inversion Hst; subst st'.
+  split; [reflexivity|]. rewrite (Hb' eq_refl). rewrite ndrop_all by lia. apply app_nil_r.
+Qed.
